@@ -6,7 +6,16 @@ pid = sys.argv[1]
 n = int(sys.argv[2]) if len(sys.argv) > 2 else 3
 round2 = len(sys.argv) > 3 and sys.argv[3] in ("round2", "round3", "round4")
 round3 = len(sys.argv) > 3 and sys.argv[3] in ("round3", "round4")
-round4 = len(sys.argv) > 3 and sys.argv[3] == "round4"
+round4 = len(sys.argv) > 3 and sys.argv[3] in ("round4", "round5")
+round5 = len(sys.argv) > 3 and sys.argv[3] == "round5"
+tried = ""
+if round5:
+    import glob
+    rows = []
+    for f in sorted(glob.glob('/verif/seeded/%s-*/meta.json' % pid), key=lambda x: int(x.split('-')[-1].split('/')[0])):
+        m = json.load(open(f))
+        rows.append("- " + ", ".join(m.get('files', [])[:2]) + ": " + " ".join(m.get('summary', '').split())[:230])
+    tried = "\n".join(rows)
 p = [json.loads(l) for l in open('/verif/properties.jsonl') if json.loads(l)['id'] == pid][0]
 wt = '/tmp/seed/%s' % pid
 os.makedirs('/tmp/seed', exist_ok=True)
@@ -30,4 +39,9 @@ Additional guidance for this round: an earlier round already produced the most d
 
 Third round: two earlier rounds already covered, across the library: single-operator flips and dropped checks; caches or memos keyed too coarsely across requests (missing variables / features / context in the key); integer-kind truncation and wrap-around (uint64, uint8(rune)); recursion-counter leaks in the parser; reversed list/non-null wrapper chains; a stale context after an init hook; in-place filtering of shared slices; Go-style instead of JSON-style string quoting. Do NOT repeat those kinds. Look elsewhere: error paths and partial failure (what happens to the *rest* when one part fails), ordering and tie-breaking (stable vs unstable, first vs last wins), Unicode and case (normalisation, case-insensitive matching where it must be exact or vice versa), off-by-one exactly at a documented constant or buffer size, interactions between two features that are each tested alone, explicit values vs defaults vs absent, aliasing / shared mutable state *within a single request* (a slice or map reused across siblings, loop-variable capture), time and cancellation, and clean-up paths that run in a different order than set-up.""" if round3 else "") + ("""
 
-Fourth round: the third round's kinds (above) are now covered as well — among others: sibling error paths sharing a backing array, stale pointers into a reallocated slice, one-shot promises consumed twice, byte vs character columns, lone CR handling, Unicode white space, memoised cycle searches, nil vs empty slices on early returns, positional vs by-name comparison, per-document memo across operations, last-wins loops, case-insensitive JSON decoding, pooled hashers, breadth counted as depth, post-order visited sets. Do NOT repeat those. This time place the change AWAY from the functions the property is obviously anchored in: in a file or package the property only depends on indirectly — a shared helper (ordered map, path, error construction, JSON/number conversion, reflection helpers), another entry point or transport that reaches the same core (HTTP GET vs POST vs WebSocket, apifu wrapper vs graphql package, Clone / preprocessing hooks, persisted queries, feature sets, cost limits, introspection), configuration defaults, or the code generator's inputs — so that the property breaks only for requests that come in through that route or use that helper in a particular way. Also good: a change that is only wrong under a particular Go runtime behaviour the author forgot (map iteration order, nil map writes, integer division rounding towards zero, slices.Sort instability, defer order, shadowed err, range over a copy), or only on the SECOND use of an object (a schema validated twice, an API serving a second connection, a document executed after being validated with different variables). Each change must still be something a reviewer could plausibly approve.""" if round4 else ""))
+Fourth round: the third round's kinds (above) are now covered as well — among others: sibling error paths sharing a backing array, stale pointers into a reallocated slice, one-shot promises consumed twice, byte vs character columns, lone CR handling, Unicode white space, memoised cycle searches, nil vs empty slices on early returns, positional vs by-name comparison, per-document memo across operations, last-wins loops, case-insensitive JSON decoding, pooled hashers, breadth counted as depth, post-order visited sets. Do NOT repeat those. This time place the change AWAY from the functions the property is obviously anchored in: in a file or package the property only depends on indirectly — a shared helper (ordered map, path, error construction, JSON/number conversion, reflection helpers), another entry point or transport that reaches the same core (HTTP GET vs POST vs WebSocket, apifu wrapper vs graphql package, Clone / preprocessing hooks, persisted queries, feature sets, cost limits, introspection), configuration defaults, or the code generator's inputs — so that the property breaks only for requests that come in through that route or use that helper in a particular way. Also good: a change that is only wrong under a particular Go runtime behaviour the author forgot (map iteration order, nil map writes, integer division rounding towards zero, slices.Sort instability, defer order, shadowed err, range over a copy), or only on the SECOND use of an object (a schema validated twice, an API serving a second connection, a document executed after being validated with different variables). Each change must still be something a reviewer could plausibly approve.""" if round4 else "") + (("""
+
+Fifth round: you now have a free choice of kind and place (core functions, helpers, other routes — anything the property depends on). The changes below have ALREADY been written for this property in earlier rounds; do not repeat any of them or a close variant (same function with the same mechanism, or the same trigger condition). Read the list for what is missing from it: clauses of the statement that no earlier change touches, input classes in the quantifier that none of them needs, combinations of two conditions, the third-or-later element of something, values at both ends of a range, behaviour under repetition (the same request twice, the same connection reused, a value registered and re-registered), and what happens right after an error. Aim for the change that a checker built from the property text alone would be least likely to notice while it still clearly violates the statement as written; a change that only makes behaviour differ from today's without contradicting the statement does not count.
+
+Already tried:
+""" + tried) if round5 else ""))
